@@ -22,6 +22,25 @@ def omega_xxpp(d):
     return np.block([[np.zeros((d, d)), np.eye(d)], [-np.eye(d), np.zeros((d, d))]])
 
 
+# Gaussian states are judged with tolerances that follow the conditioning of their moments:
+# kappa = 2 max|cov| / hbar is 1 for the vacuum and e^{2r} for squeezing r. The moments are
+# produced by congruences whose intermediate terms are O(kappa) larger than the result, so their
+# floating-point error is ~ eps * kappa * max|cov|; det / inverse based quantities (purity,
+# Fock probabilities) lose another factor kappa. States with kappa > KAPPA_MAX (beyond 60 dB of
+# squeezing; float64 resolves nothing there) are counted and not judged.
+KAPPA_MAX = 1e6
+EPS = float(np.finfo(float).eps)
+STATS = {"gaussian_ill_conditioned_not_judged": 0, "max_gaussian_kappa_judged": 0.0}
+
+
+def gaussian_kappa(state):
+    hbar = float(state._config.hbar)
+    cov = np.asarray(state.xxpp_covariance_matrix)
+    if not np.all(np.isfinite(cov)):
+        return 1.0
+    return max(1.0, 2.0 * float(np.abs(cov).max()) / hbar)
+
+
 def check_state(state, tol=1e-9):
     """Returns a list of (mechanism suffix, message); empty when the state is physical."""
     k = kind_of(state)
@@ -32,6 +51,13 @@ def check_state(state, tol=1e-9):
         cov = np.asarray(state.xxpp_covariance_matrix)
         mean = np.asarray(state.xxpp_mean_vector)
         scale = max(1.0, float(np.abs(cov).max()))
+        if np.all(np.isfinite(cov)):
+            kappa = gaussian_kappa(state)
+            if kappa > KAPPA_MAX:
+                STATS["gaussian_ill_conditioned_not_judged"] += 1
+                return out
+            STATS["max_gaussian_kappa_judged"] = max(STATS["max_gaussian_kappa_judged"], kappa)
+            tol = max(tol, 100 * EPS * kappa)
         if np.iscomplexobj(cov) and np.abs(cov.imag).max() > tol * scale:
             out.append(("gaussian-cov-not-real", "covariance has imaginary part %.2e" % np.abs(cov.imag).max()))
         cov = cov.real
@@ -112,6 +138,15 @@ def reported_quantities(state, tol=1e-9):
     out = []
     k = kind_of(state)
     queried = 0
+    ptol = 1e-7
+    if k == "gaussian":
+        kappa = gaussian_kappa(state)
+        if kappa > KAPPA_MAX:
+            STATS["gaussian_ill_conditioned_not_judged"] += 1
+            return out, 0
+        # det / inverse based quantities: relative error ~ eps * kappa^2
+        tol = max(tol, 100 * EPS * kappa ** 2)
+        ptol = max(ptol, 100 * EPS * kappa ** 2)
 
     def probs_ok(name, p):
         p = np.asarray(p)
@@ -154,7 +189,7 @@ def reported_quantities(state, tol=1e-9):
         queried += 1
         nrm = norm_of(state)
         normalised = nrm is None or abs(nrm - 1) < 1e-6
-        if normalised and not (pur > 0 and pur <= 1 + 1e-7):
+        if normalised and not (pur > 0 and pur <= 1 + ptol):
             out.append(("purity-out-of-range:%s" % k, "purity %.12f" % pur))
         if k in ("purefock", "ffock") and normalised and abs(pur - 1) > 1e-7:
             out.append(("pure-state-purity-not-one:%s" % k, "purity of a pure state %.12f" % pur))
@@ -166,10 +201,12 @@ def reported_quantities(state, tol=1e-9):
             nu = np.abs(np.linalg.eigvals(1j * omega_xxpp(d) @ cov))
             nu = np.sort(nu)[::2]
             ref = float(1.0 / np.prod(nu))
-            if abs(pur - ref) > 1e-6 * max(1.0, ref):
+            if abs(pur - ref) > max(1e-6, 10 * ptol) * max(1.0, ref):
                 out.append(("gaussian-purity-wrong", "get_purity()=%.9f, symplectic spectrum gives %.9f (hbar=%g)" % (pur, ref, hbar)))
             pure = bool(abs(ref - 1) < 1e-7)
-            if bool(state.is_pure()) != pure and abs(ref - 1) > 1e-5 or (pure and not state.is_pure()):
+            if ptol > 1e-7:
+                pass  # is_pure() compares with a fixed tolerance: not decidable for ill-conditioned moments
+            elif bool(state.is_pure()) != pure and abs(ref - 1) > 1e-5 or (pure and not state.is_pure()):
                 out.append(("gaussian-is-pure-wrong", "is_pure()=%s, purity %.9f" % (state.is_pure(), ref)))
     except Exception:
         pass
